@@ -173,6 +173,10 @@ struct LockDriver : vrt::Driver {
         default: break;
       }
       vrt::Log("{\"e\":\"ret\",\"t\":%d,\"op\":\"Bool\",\"g\":%d,\"b\":%d}", t, g, b);
+    } else if (k == "Q") {
+      // hold on until every other thread has finished or queued up (is blocked)
+      vrt::WaitOthersQuiet();
+      vrt::Log("{\"e\":\"ret\",\"t\":%d,\"op\":\"Sync\",\"g\":0}", t);
     } else if (k == "WAIT") {
       // harness-level wait for a guard created by another thread (guard hand-over programs)
       int g = g1();
